@@ -402,6 +402,8 @@ class Session:
     def handle_tls_13_application_record(self, record: TlsRecord, isserver):
         try:
             plaintext = self.decryptor.decrypt(record, isserver)
+            # TLSInnerPlaintext = content || type || zero padding (RFC 8446 5.4): the type is the last non-zero byte
+            plaintext = bytes(plaintext).rstrip(b"\x00")
             subrecord_type = plaintext[-1:]
             if subrecord_type == b'\x16':
                 self.handle_decrypted_tls_13_handshake_record(plaintext[:-1], isserver)
